@@ -8,9 +8,12 @@ from ..gen.values import put_varint
 from ..impl.canon import guarded
 from ..impl.stubs import StubVersion
 from ..leanio import driver
+from ..translate import pyfun
 
 ID = "C16"
-LEAN_MODULES = ["SqliteDissect.Properties.C16", "SqliteDissect.Properties.C01Cell"]
+LEAN_MODULES = ["SqliteDissect.Properties.C16", "SqliteDissect.Properties.C01Cell", "SqliteDissect.Properties.GenFun"]
+TRANSLATORS = [pyfun]
+TRUSTED_EXTRA = [pyfun.TRUSTED]
 PAGE_SIZES = [512, 1024, 2048, 4096, 8192, 16384, 32768, 65536]
 RULE = ("real TableLeafCell / IndexLeafCell / IndexInteriorCell objects built over synthetic pages and overflow "
         "chains (stub version interface) for every payload size 0 .. maxLocal + 2(u-4) + 64: quick = exhaustive for "
